@@ -268,7 +268,8 @@ From ZV.Mem Require Import AllocBorrow AllocBorrowTheorems.
    ZSTD_DCtx_refDDict that returned an error.  The same family holds the rest of the DCtx: the local DDict of
    ZSTD_DCtx_loadDictionary (copy / reference; released by ZSTD_clearDict) and the stream buffer.  The REPAIRED
    ZSTD_DCtx_refDDict (8de9dc9), every history of create / refDDict k (any expansion decision) / refDDict(NULL) /
-   loadDictionary / a frame decoded in one call or streamed (any selection among the referenced DDicts, any buffer decision) /
+   loadDictionary / refPrefix (single use) / a frame decoded in one call or streamed (any selection among the referenced DDicts,
+   any buffer decision; a frame compressed with the prefix the caller referenced fails for its content when the prefix is gone) /
    parameter reset (releases the set, b70602d) / free and create / free of two DDicts (by copy, by reference), every oracle,
    every size: the library never reads a released DDict, no double free, nothing allocated after the teardown *)
 Theorem borrow_any_history_no_leak : forall a b c d ops, forallb bok ops = true -> forall o,
@@ -309,6 +310,17 @@ Theorem refddict_failed_expansion_takes_effect_refuted :
   /\ run_b true [BCreate; BDDCreate 1 true; BRef 1; BDDCreate 0 true; BRef 0; BDDFree 0; BDecomp] [6%nat] [true] = ([], [], true).
 Proof. exact refddict_failed_expansion_takes_effect_refuted_l. Qed.
 Print Assumptions refddict_failed_expansion_takes_effect_refuted.
+
+(* finding prefix-used-up-by-failed-frame-start, decoder side (the family also holds the single-use prefix of ZSTD_DCtx_refPrefix and,
+   on the caller's side, the fact that the frame it decodes next was compressed with the prefix it referenced: decoding such a frame
+   without the prefix is an error although no allocation failed).  As found: refPrefix, a frame whose stream buffer cannot be
+   allocated (3rd allocation), the same frame again: error with nfail = 0.  Repaired (b15fdb6: the prefix is marked as used once the
+   frame start has succeeded): the second attempt succeeds - and [borrow_any_history_error_iff_failure] above says so for every history *)
+Theorem prefix_used_up_by_failed_frame_start_refuted :
+  run_p false [BCreate; BRefPrefix; BStream 0 0] (BStream 0 0) [3%nat] [] = (false, 0%nat, [])
+  /\ run_p true [BCreate; BRefPrefix; BStream 0 0] (BStream 0 0) [3%nat] [] = (true, 0%nat, []).
+Proof. exact prefix_used_up_by_failed_frame_start_refuted_l. Qed.
+Print Assumptions prefix_used_up_by_failed_frame_start_refuted.
 
 (* finding zbuffv04-stream-second-doors: lib/legacy/zstd_v04.c as found (sizes recorded before the malloc, inner context not
    tested; the shared version-switch code already repaired) on the legacy model of round 2; the repaired transcription - the
